@@ -26,6 +26,8 @@ def setup():
     I = Interp(w, table)
     pr.install_etree(I)
     cs = [pr.ResolveRec(), pr.ResolveDependencies(), pr.XmlRec(), pr.XmlProcessTree(), pr.JsonCategory(), pr.JsonRec()]
+    if False:
+        pass
     for c in cs:
         I.contracts[c.name] = c
     return w, I, cs
@@ -33,6 +35,15 @@ def setup():
 
 def run_job(kind, key):
     w, I, cs = setup()
+    if kind == 'contract' and key == 'depccg/printer/xml.py::xml_of':
+        at = pr.XmlProcessTreeAt()
+        I.contracts[at.name] = at                      # _process_tree through its (proved) contract
+        c = pr.XmlOf()
+        I.contracts[c.name] = c
+        recs, npaths = verify_contract(I, c, PROP)
+        for r in recs:
+            r['witness'] = dict(function=c.name)
+        return dict(job=key, records=recs, paths=npaths, lib=sorted(I.used_lib))
     if kind == 'contract':
         c = [x for x in cs if x.name == key][0]
         recs, npaths = verify_contract(I, c, PROP)
@@ -48,7 +59,7 @@ def main(tier='quick', seed=0):
     t0 = time.time()
     jobs = [('contract', 'depccg/printer/conll.py::_resolve_dependencies.rec'), ('contract', 'depccg/printer/conll.py::_resolve_dependencies'),
             ('contract', 'depccg/printer/xml.py::_process_tree.rec'), ('contract', 'depccg/printer/xml.py::_process_tree'),
-            ('contract', 'depccg/printer/my_json.py::json_of.rec'), ('view', 'tree.py')]
+            ('contract', 'depccg/printer/my_json.py::json_of.rec'), ('contract', 'depccg/printer/xml.py::xml_of'), ('view', 'tree.py')]
     results = engine.run_jobs('props.c07', jobs)
     records, errors = [], []
     for r in results:
@@ -69,7 +80,7 @@ def main(tier='quick', seed=0):
         'lxml serialise/parse round trip preserves tags, attributes and order for XML-representable strings',
     ]
     extra = dict(functions_under_contract=['depccg/printer/conll.py::_resolve_dependencies', 'depccg/printer/conll.py::_resolve_dependencies.rec',
-                                           'depccg/printer/xml.py::_process_tree', 'depccg/printer/xml.py::_process_tree.rec', 'depccg/printer/my_json.py::json_of.rec',
+                                           'depccg/printer/xml.py::xml_of (numbering: arbitrary sentence and tree)', 'depccg/printer/xml.py::_process_tree', 'depccg/printer/xml.py::_process_tree.rec', 'depccg/printer/my_json.py::json_of.rec',
                                            'depccg/tree.py::Tree.is_leaf / is_unary / child / left_child / right_child / head_is_left (view lemma)'],
                  bounded_functions=['all encoders of depccg/printer', 'depccg/tools/reader.py', 'depccg/tools/ja/reader.py'])
     return c12.finish_with(PROP, tier, seed, t0, records, errors, extra, assumptions, ['printers_real.py'], level='exploration')
